@@ -25,10 +25,19 @@ func main() {
 	log.SetOutput(io.Discard)
 	seed := flag.Uint64("seed", 1, "seed")
 	n := flag.Int("n", 1500, "number of random ARP packet cases (after the lattice)")
+	nh := flag.Int("hist", 120, "number of cache histories with explicit checkLinkRequest calls")
+	nov := flag.Int("overflow", 2, "number of ring-overflow histories")
+	nt := flag.Int("timers", 60, "number of cache histories with the real resolver timers")
+	conc := flag.Int("conc", 32, "cache histories run concurrently")
+	nsc := flag.Int("scen", 0, "rounds of real-constant UDP/TCP scenarios (19 scenarios, about 4 s per round)")
 	flag.Parse()
 	out = bufio.NewWriterSize(os.Stdout, 1<<20)
 	defer out.Flush()
 	r := gen.New(*seed)
 	runArp(r, *n)
+	runCache(r, *nh, *nov, *nt, *conc)
+	for i := 0; i < *nsc; i++ {
+		runScens(1)
+	}
 	fmt.Fprintf(out, "# done\n")
 }
